@@ -95,6 +95,7 @@ func runC19(r *Run) error {
 			}
 			prims[i], samples[i] = nil, nil
 		}
+		complete := true // false: the sample about to be taken is of a log that a limited load has cut
 		sample := func(i int) {
 			st := s.Stores[i]
 			fresh := rec.take(fmt.Sprintf("%p", st))
@@ -104,8 +105,8 @@ func runC19(r *Run) error {
 				samples[i] = append(samples[i], fmt.Sprintf("(mkSm %s %s 0%%Z 0%%Z false)", sim.CoqZ(x.prog), sim.CoqZ(x.max)))
 			}
 			rs := st.ReplicationStatus()
-			samples[i] = append(samples[i], fmt.Sprintf("(mkSm %s %s %s %s true)", sim.CoqZ(rs.GetProgress()), sim.CoqZ(rs.GetMax()),
-				sim.CoqZ(st.OpLog().Len()), sim.CoqZ(maxTime(st))))
+			samples[i] = append(samples[i], fmt.Sprintf("(mkSm %s %s %s %s %s)", sim.CoqZ(rs.GetProgress()), sim.CoqZ(rs.GetMax()),
+				sim.CoqZ(st.OpLog().Len()), sim.CoqZ(maxTime(st)), sim.CoqBool(complete)))
 		}
 		reopen := func(i int, how string) error {
 			flush(i, how)
@@ -174,6 +175,26 @@ func runC19(r *Run) error {
 				sample(i)
 				r.Count("sync")
 			case c < 9:
+				if total := s.Stores[i].OpLog().Len(); total >= 2 && r.Rng.Intn(2) == 0 {
+					// a limited load on the OPEN store, which holds more than the limit: the log is cut
+					// to the limit (it is not complete then: only "never decreases" applies to that
+					// sample); an unlimited load then brings everything back
+					st0 := s.Stores[i]
+					if err := st0.Load(ctx, 1+r.Rng.Intn(total-1)); err != nil {
+						return fmt.Errorf("limited load in place: %w", err)
+					}
+					s.Settle()
+					complete = st0.OpLog().Len() >= total
+					sample(i)
+					complete = true
+					if err := st0.Load(ctx, -1); err != nil {
+						return fmt.Errorf("unlimited load in place: %w", err)
+					}
+					s.Settle()
+					sample(i)
+					r.Count("limited-load-in-place")
+					break
+				}
 				if err := reopen(i, "load"); err != nil {
 					return err
 				}
